@@ -244,6 +244,18 @@ func syncC02Consts(repo string) (string, string, error) {
 			bufDefault, _ = intConst(rs.Results[0])
 		}
 	}
+	// --- internal/http2/flow.go inflowMinRefresh
+	ff, err := parser.ParseFile(fset, filepath.Join(repo, "internal/http2/flow.go"), nil, 0)
+	if err != nil {
+		return "", "", err
+	}
+	minRefresh := int64(-1)
+	ast.Inspect(ff, func(n ast.Node) bool {
+		if vs, ok := n.(*ast.ValueSpec); ok && len(vs.Names) == 1 && vs.Names[0].Name == "inflowMinRefresh" && len(vs.Values) == 1 {
+			minRefresh, _ = intConst(vs.Values[0])
+		}
+		return true
+	})
 	var sb strings.Builder
 	sb.WriteString("(* GENERATED by harness/c02 gosync from /repo/client.go, response.go, middleware.go, transport.go,\n   internal/http2/transport.go, internal/http3/client.go - do not edit *)\n")
 	sb.WriteString("From Coq Require Import List ZArith String.\nImport ListNotations.\nOpen Scope string_scope.\n\n")
@@ -260,5 +272,6 @@ func syncC02Consts(repo string) (string, string, error) {
 	sb.WriteString(fmt.Sprintf("(* defaultResultStateChecker: code > lo && code < hi *)\nDefinition fork_success_lo : Z := %d.\nDefinition fork_success_hi : Z := %d.\n", lo, hi))
 	sb.WriteString(fmt.Sprintf("(* max1xxResponses *)\nDefinition fork_max_1xx_h1 : Z := %d.\nDefinition fork_max_1xx_h2 : Z := %d.\nDefinition fork_max_1xx_h3 : Z := %d.\n", m1, m2, m3))
 	sb.WriteString(fmt.Sprintf("(* Transport.readBufferSize default *)\nDefinition fork_read_buffer : Z := %d.\n", bufDefault))
+	sb.WriteString(fmt.Sprintf("(* internal/http2/flow.go *)\nDefinition fork_inflow_min_refresh : Z := %d.\n", minRefresh))
 	return "C02Consts.v", sb.String(), nil
 }
